@@ -333,7 +333,7 @@ class EvolvableCNN(EvolvableModule):
 
                 if old_size == new_size:
                     param.data = old_param.data
-                elif "norm" not in key:
+                else:
                     min_0 = min(old_size[0], new_size[0])
                     if len(param.data.size()) == 1:
                         param.data[:min_0] = old_param.data[:min_0]
